@@ -8,7 +8,7 @@ import (
 )
 
 // C17 (clock clause only) — ক্লক() returns the current Unix time in seconds.
-// The simulator owns the wall clock: start anywhere in +-3000 years, steps of
+// The simulator owns the wall clock: start anywhere in 1700..2250 (the range int64 nanoseconds can hold), steps of
 // 0 ms .. days, backward jumps, sub-millisecond fractions.
 
 func init() {
@@ -19,7 +19,7 @@ func init() {
 		Random:      c17Random,
 		RandomCount: func(tier string) int { return map[string]int{"quick": 600, "thorough": 300000}[tier] },
 		Eval:        c17Eval,
-		Rule: "CLOCK CLAUSE ONLY (the math built-ins are pure functions and not covered). programs = 1..6 ক্লক() calls whose values are printed at once, stored and printed later, or taken inside a loop / function; schedule = simulated wall clock: start in {0, +-1 s, 1e6, today, year 3000, year 1000 (negative), ...} +- offset, per-read step in {0, 1 ms, 999 ms, 1 s, hours, backward jump, random}, sub-ms fraction; oracle = k-th printed value within 1 s of the simulated instant of the k-th clock read, one read per call, ক্লক(1) is a runtime error. " +
+		Rule: "CLOCK CLAUSE ONLY (the math built-ins are pure functions and not covered). programs = 1..6 ক্লক() calls whose values are printed at once, stored and printed later, or taken inside a loop / function; schedule = simulated wall clock: start in {0, +-1 s, 1e6, today, year 2250, year 1700 (negative), ...} +- offset, per-read step in {0, 1 ms, 999 ms, 1 s, hours, backward jump, random}, sub-ms fraction; oracle = k-th printed value within 1 s of the simulated instant of the k-th clock read, one read per call, ক্লক(1) is a runtime error. " +
 			"distinct_nontrivial counts distinct (program shape, clock start, step vector) triples with at least one non-default step.",
 		DistinctSet: "c17_clock_scripts",
 		Assumptions: []string{
